@@ -20,6 +20,9 @@ pub struct Shared {
     /// the embedder's own handle on the flag; `None` = the command raises the flag through
     /// `context.env.halt` and nobody but the run's Env holds it
     pub halt: Option<Arc<AtomicBool>>,
+    /// the command puts a NEW flag (already raised) into `context.env.halt` instead of raising the
+    /// one that is there (an embedder's command wiring in its own cancel token)
+    pub replace_flag: bool,
 }
 
 #[derive(Clone)]
@@ -41,6 +44,7 @@ impl Command for Scripted {
         if sh.halt_at == Some(sh.invocations) {
             match &sh.halt {
                 Some(h) => h.store(true, Ordering::SeqCst),
+                None if sh.replace_flag => ctx.env.halt = Arc::new(AtomicBool::new(true)),
                 None => ctx.env.halt.store(true, Ordering::SeqCst),
             }
         }
@@ -91,6 +95,18 @@ impl std::io::Write for Sink {
     }
 }
 
+/// a writer that accepts everything and FAILS on flush (a closed pipe behind a buffer): the
+/// outcome of a run never depends on the embedder's writers being flushable
+pub struct FailFlush;
+impl std::io::Write for FailFlush {
+    fn write(&mut self, b: &[u8]) -> std::io::Result<usize> {
+        Ok(b.len())
+    }
+    fn flush(&mut self) -> std::io::Result<()> {
+        Err(std::io::Error::new(std::io::ErrorKind::BrokenPipe, "flush refused"))
+    }
+}
+
 /// run `text` (or the file at `file`) with scripted commands; canonical outcome string
 pub fn run_scripted(text: &str, file: Option<&str>, names: &[String], queue: &str, halt_at: Option<usize>, vars: &[(String, String)]) -> String {
     let halt = Arc::new(AtomicBool::new(false));
@@ -99,8 +115,9 @@ pub fn run_scripted(text: &str, file: Option<&str>, names: &[String], queue: &st
     // command raises it through `context.env.halt` while the embedder still holds a handle;
     // 2 = through `context.env.halt`, the Env was built without an embedder flag (nobody else
     // holds it); 3 = the same with `run_script(.., None)` (default Env; texts without `!print`)
-    let halt_mode = if text.contains("!print") { (crate::hash_str(text) / 4) % 3 } else { (crate::hash_str(text) / 4) % 4 };
-    let shared = Rc::new(RefCell::new(Shared { queue: q, log: vec![], invocations: 0, halt_at, halt: if halt_mode == 0 { Some(halt.clone()) } else { None } }));
+    // … 4 = a new, raised flag is put into `context.env.halt`
+    let halt_mode = if text.contains("!print") { (crate::hash_str(text) / 5) % 3 } else { (crate::hash_str(text) / 5) % 5 };
+    let shared = Rc::new(RefCell::new(Shared { queue: q, log: vec![], invocations: 0, halt_at, halt: if halt_mode == 0 { Some(halt.clone()) } else { None }, replace_flag: halt_mode == 4 }));
     let mut context = Context::new();
     for n in names {
         context.commands.set(Box::new(Scripted { name: n.clone(), shared: shared.clone() })).unwrap();
@@ -111,13 +128,14 @@ pub fn run_scripted(text: &str, file: Option<&str>, names: &[String], queue: &st
     // every shape of `Env::new(out, err, halt)`: the embedder's flag must be the one the runner
     // polls whichever writers are given (scripted commands print nothing; a shape without `out`
     // is only used for texts without a `!print` line)
-    let shape = if text.contains("!print") { 0 } else { crate::hash_str(text) % 4 };
+    let shape = if text.contains("!print") { 0 } else { crate::hash_str(text) % 5 };
     let flag = |keep: bool| if keep { Some(halt.clone()) } else { None };
-    let keep = halt_mode <= 1;
+    let keep = halt_mode <= 1 || halt_mode == 4;
     let env = match shape {
         0 => Env::new(Some(Box::new(Sink)), Some(Box::new(Sink)), flag(keep)),
         1 => Env::new(Some(Box::new(Sink)), None, flag(keep)),
         2 => Env::new(None, Some(Box::new(Sink)), flag(keep)),
+        4 => Env::new(Some(Box::new(FailFlush)), Some(Box::new(FailFlush)), flag(keep)),
         _ => Env::new(None, None, flag(keep)),
     };
     let env = if halt_mode == 3 { None } else { Some(env) };
